@@ -27,8 +27,8 @@ theorem cut_fragments_is_source (b : Build) (fnd : Found) :
     simp only [ImpCut.ok_map, ImpCut.ok_bind]
     generalize ImpCut.cutOrder keyed = ordered
     -- `for i, scffld in enumerate(ordered_scaffolds): …` is the model's `foldlM` of `cutStep`; the loop state is the three
-    -- variables in the translator's (alphabetical) order — the only place of this proof that names that order
-    rw [ImpCut.cutLoop_is_forIn (fun subs store oid => (oid, store, subs)) fnd.fragment (ordered.length - 1) _ ordered ?_ b]
+    -- variables in the translator's order (by the text of their type, then by name) — the only place of this proof that names that order
+    rw [ImpCut.cutLoop_is_forIn (fun subs store oid => (subs, store, oid)) fnd.fragment (ordered.length - 1) _ ordered ?_ b]
     · -- after the loop: the QC, the `cuts` counter
       cases hl : List.foldlM (ImpCut.cutStep fnd.fragment (ordered.length - 1)) (b, [], 0) ordered with
       | error e => rfl
